@@ -46,10 +46,44 @@ def reader (c : Conn) (inbuf : List UInt8) (eof : Bool) : Conn × List UInt8 :=
   | r => (readerStop c r eof, inbuf)
 termination_by inbuf.length
 
+/-! ### the wire: response bytes arrive in arbitrary chunks, interleaved with everything else
+
+`read_response_frame` keeps the 9 header bytes and the partly read body in the locals of its future; `reader` awaits
+that future to completion and does nothing else meanwhile (`reader` 1621-1685: one `.await` on the read, then the
+lookup). So a PARTLY RECEIVED FRAME SURVIVES every other event of the connection — cancellations, orphan notices,
+writes, keep-alive turns. This is an assumption about the structure of `reader` (the read is never raced against
+another future and dropped: `read_response_frame` is not cancellation safe); it sits exactly here: `wstep (.conn e)`
+leaves `inbuf` alone. `Props.C10.wire_is_frame_aligned` is what follows from it. -/
+
+structure Wire where
+  c : Conn
+  inbuf : List UInt8 := []       -- received, not yet consumed as whole frames
+  eof : Bool := false
+  received : List UInt8 := []    -- ghost: every byte received so far
+
+inductive WEv where
+  | bytes (bs : List UInt8)      -- one chunk (a TCP segment, a part of a frame, several frames) arrives
+  | close                        -- the peer closes
+  | conn (e : Ev)                -- any event of the connection (caller, writer, orphaner, …)
+
+def wstep (w : Wire) : WEv → Wire
+  | .bytes bs =>
+    if w.eof then w else
+    let r := reader w.c (w.inbuf ++ bs) false
+    { w with c := r.1, inbuf := r.2, received := w.received ++ bs }
+  | .close =>
+    if w.eof then w else
+    let r := reader w.c w.inbuf true
+    { w with c := r.1, inbuf := r.2, eof := true }
+  | .conn e => { w with c := step w.c e }
+
+def wrun (w : Wire) (evs : List WEv) : Wire := evs.foldl wstep w
+
 /-! ### with an event sender registered (`config.event_sender = Some(..)`; the control connection) -/
 
-/-- The event channel as the reader sees it (`mpsc::Sender<Event>`; the control connection's has capacity 32,
-`control_connection.rs:413`): the receiver may be gone, and there may be no free slot. -/
+/-- The event channel as the reader sees it (`mpsc::Sender<Event>`; the production control connection's has capacity
+32, `cluster/metadata/cc_establisher.rs:409` `make_control_connection`, extracted as
+`Generated.controlEventChannelCapacity`): the receiver may be gone, and there may be no free slot. -/
 structure EvChan where
   closed : Bool := false     -- the receiver was dropped: `event_sender.send(..)` fails (`SendError`)
   room : Nat                 -- free slots; `send(..).await` blocks while there is none
